@@ -516,7 +516,7 @@ func builtinCases() ([]builtinCase, string) {
 	if errText != "" {
 		return nil, errText
 	}
-	tuples := harness.N(3, 5) // thorough: 16 shards × 5 tuples with different seeds
+	tuples := harness.N(2, 5) // quick: 253 kinds × 2 tuples; thorough: 16 shards × 5 tuples with different seeds
 	var cases []builtinCase
 	for fi, fn := range fns {
 		if _, skip := skipFunctions[fn.Path]; skip {
